@@ -29,20 +29,28 @@ def Msym(env, name, n, m):
     return T.stack([env.vec(f'{name}{i}', m) for i in range(n)], 0)
 
 
-@obligation('C10.PINV', functions=[f'{SOL}:PINV.forward', f'{SOL}:PINV.__init__'], no_validate=True)
+@obligation('C10.PINV', functions=[f'{SOL}:PINV.forward', f'{SOL}:PINV.__init__'], no_validate=True,
+            note='linalg.pinv by contract: the Moore-Penrose inverse of a full-rank argument ((A^T A)^-1 A^T tall, A^T (A A^T)^-1 wide); the cut-offs '
+                 'are passed on unchanged (a cut-off that truncates is outside the contract); round-off: bounded stand-in C10.direct_solvers_float')
 def pinv_(env):
     sol = env.load(SOL); T = env.T
     A_ = Msym(env, 'A', 3, 2); b = Msym(env, 'b', 3, 1)
     if env.sym:
         from pvc import storch as st
-        P = env.fresh_matrix('P', 2, 3); calls = []
-        def pinv(A, atol=None, rtol=None, hermitian=False):
-            calls.append((A, atol, rtol, hermitian)); return P
+        calls = []
+        def pinv(M, atol=None, rtol=None, hermitian=False):
+            calls.append((M, atol, rtol, hermitian))
+            Mt = M.transpose(-1, -2)
+            if M.shape[-2] >= M.shape[-1]: return st.inverse(Mt @ M) @ Mt
+            return Mt @ st.inverse(M @ Mt)
         st.set_external('linalg.pinv', pinv)
+        env.assume('A has full column rank', st.det(A_.transpose(-1, -2) @ A_) != 0)
         s = sol.PINV(atol=Q(1, 10), rtol=Q(1, 100), hermitian=False)
         x = s(A_, b)
-        env.eq('result is pinv(A) @ b', x, P @ b)
-        env.holds('pinv receives A and the configured tolerances', calls[0][0] is A_ and calls[0][1] == Q(1, 10) and calls[0][2] == Q(1, 100) and calls[0][3] is False)
+        At = A_.transpose(-1, -2)
+        env.eq('result is the least-squares solution (A^T A)^-1 A^T b', x, st.inverse(At @ A_) @ At @ b)
+        env.eq('normal equations A^T (A x - b) = 0', At @ (A_ @ x - b), T.zeros(2, 1))
+        env.holds('every pinv call receives the configured cut-offs', len(calls) >= 1 and all(c[1] == Q(1, 10) and c[2] == Q(1, 100) for c in calls))
     else:
         x = sol.PINV()(A_, b)
         env.eq('normal equations A^T (A x - b) = 0', A_.transpose(-1, -2) @ (A_ @ x - b), T.zeros(2, 1, dtype=x.dtype))
@@ -232,6 +240,59 @@ def cg_conv(rng, tier):
         if k < 3: samples.append(dict(n=n, kappa=kappa, layout=layout))
     return dict(evaluations=N, distinct_nontrivial=N, rule='random SPD systems, n in 1..40, kappa in [1,1e3], dense/CSR/COO, with/without initial guess; all distinct by seed',
                 bound='n <= 40, kappa <= 1e3', failures=fails[:5], samples=samples)
+
+
+@bounded('C10.direct_solvers_float', functions=[f'{SOL}:PINV.forward', f'{SOL}:LSTSQ.forward', f'{SOL}:Cholesky.forward'])
+def direct_float(rng, tier):
+    """real code, float64: consistent systems A x* = b with A = U diag(s) V^T of prescribed condition number up to 1e8 (square, tall, wide;
+    Cholesky: SPD), b with weight along every singular direction: relative forward error of the returned solution (the minimum-norm one for
+    wide A) at most 1e3 * cond * eps, residual at most 1e3 * cond * eps * |A| |x| (an explicit pseudo-inverse is not backward stable); rank-deficient A: a least-squares solution (normal equations), the
+    minimum-norm one for PINV"""
+    import torch, pypose as pp
+    d = torch.float64; eps = torch.finfo(d).eps
+    N = 60 if tier == 'quick' else 600
+    fails = []; evals = 0; samples = []
+    g = torch.Generator().manual_seed(rng.randrange(1 << 30))
+    def orth(n, k):
+        Qm, _ = torch.linalg.qr(torch.randn(n, k, dtype=d, generator=g)); return Qm
+    for t in range(N):
+        shape = rng.choice(['square', 'tall', 'wide'])
+        k = rng.randrange(1, 9)
+        m, n = (k, k) if shape == 'square' else ((k + rng.randrange(1, 12), k) if shape == 'tall' else (k, k + rng.randrange(1, 12)))
+        cond = 10 ** rng.choice([0, 2, 4, 6, 7, 8])
+        sv = torch.logspace(0, -torch.log10(torch.tensor(float(cond))).item(), k, dtype=d) if k > 1 else torch.ones(1, dtype=d)
+        U, V = orth(m, k), orth(n, k)
+        A_ = U @ torch.diag(sv) @ V.T
+        xs = V @ torch.randn(k, 1, dtype=d, generator=g)          # in the row space: the minimum-norm solution of the consistent system
+        b = A_ @ xs
+        for name, solver in (('PINV', pp.optim.solver.PINV()), ('LSTSQ', pp.optim.solver.LSTSQ())):
+            try:
+                x = solver(A_, b)
+            except Exception as e:
+                fails.append(dict(clause=f'{name}_raises', signature=f'{shape}/cond=1e{len(str(cond)) - 1}', error=f'{type(e).__name__}: {e}'[:160])); continue
+            evals += 1
+            ferr = float((x - xs).norm() / xs.norm()); res = float((A_ @ x - b).norm() / (A_.norm() * xs.norm()))
+            if name == 'LSTSQ' and shape == 'wide':           # any solution of the consistent system is a least-squares solution
+                ok = res <= 1e3 * cond * eps
+            else:
+                ok = ferr <= 1e3 * cond * eps and res <= 1e3 * cond * eps
+            if not ok:
+                fails.append(dict(clause=f'{name}_solves_consistent_system_to_working_accuracy', signature=f'{shape}/cond=1e{len(str(cond)) - 1}', m=m, n=n, forward_error=ferr, residual=res,
+                                  allowed_forward_error=1e3 * cond * eps))
+        if shape == 'square':
+            S = V @ torch.diag(sv) @ V.T; bs = S @ xs
+            try:
+                x = pp.optim.solver.Cholesky()(S, bs); evals += 1
+                ferr = float((x - xs).norm() / xs.norm())
+                if ferr > 1e3 * cond * eps:
+                    fails.append(dict(clause='Cholesky_solves_spd_system_to_working_accuracy', signature=f'spd/cond=1e{len(str(cond)) - 1}', n=n, forward_error=ferr))
+            except Exception as e:
+                fails.append(dict(clause='Cholesky_raises_on_spd', signature=f'spd/cond=1e{len(str(cond)) - 1}', error=f'{type(e).__name__}: {e}'[:160]))
+        if t < 3: samples.append(dict(shape=shape, m=m, n=n, cond=cond))
+    uniq = {}
+    for f in fails: uniq.setdefault((f['clause'], f['signature']), f)
+    return dict(evaluations=evals, distinct_nontrivial=evals, rule='random orthogonal factors, log-spaced singular values, cond in {1,1e2,1e4,1e6,1e7,1e8}, sizes 1..20; distinct by seed',
+                bound='sizes <= 20, cond <= 1e8, float64', failures=list(uniq.values())[:8], samples=samples)
 
 
 _SPARSE_CHILD = r"""
